@@ -99,7 +99,7 @@ func verifEval(vm *VM, sys fs.FS, src string, mode int, options ...RunOption) ([
 func verifEvalCall(src string, entry string, nres int, args []Value, mode int) (o verifOutcome) {
 	rec := &verifRecorder{}
 	vm := New(WithStdout(rec))
-	rets, err := verifEval(vm, nil, src, mode)
+	rets, err := verifEval(vm, verifMkFS(nil), src, mode)
 	o.evalErr = err
 	if err == nil {
 		if entry != "" {
@@ -108,7 +108,7 @@ func verifEvalCall(src string, entry string, nres int, args []Value, mode int) (
 		}
 		o.rets = rets
 	}
-	o.out = rec.sb.String()
+	o.out = rec.String()
 	return o
 }
 
